@@ -8,7 +8,7 @@ use poulpy_hal::{
 };
 
 use crate::{
-    CKKSInfos, checked_log_budget_sub,
+    CKKSInfos, CKKSMeta, checked_log_budget_sub,
     layouts::{CKKSCiphertext, plaintext::CKKSPlaintextVecZnx},
     leveled::api::{CKKSAddOps, CKKSDecrypt, CKKSEncrypt, CKKSPlaintextZnxOps},
     oep::CKKSImpl,
@@ -41,10 +41,16 @@ where
         S: GLWESecretPreparedToRef<BE>,
         Scratch<BE>: ScratchAvailable + ScratchTakeCore<BE>,
     {
+        // The encryption places its noise at torus position `k`: it must lie inside the buffer,
+        // which is exactly what `set_meta_checked` verifies for the metadata installed here.
+        let k = enc_infos.noise_infos().k;
+        anyhow::ensure!(k > 0, "ckks_encrypt_sk: encryption precision k must be positive");
+        let log_budget = checked_log_budget_sub("ckks_encrypt_sk", k, pt.log_delta())?;
+        ct.set_meta_checked(CKKSMeta {
+            log_delta: pt.log_delta(),
+            log_budget,
+        })?;
         self.glwe_encrypt_zero_sk(ct, sk, enc_infos, source_xe, source_xa, scratch);
-        let log_budget = checked_log_budget_sub("ckks_encrypt_sk", enc_infos.noise_infos().k, pt.log_delta())?;
-        ct.meta.log_budget = log_budget;
-        ct.meta.log_delta = pt.log_delta();
         self.ckks_add_pt_vec_znx_assign(ct, pt, scratch)?;
         Ok(())
     }
